@@ -10,8 +10,8 @@ import (
 	"time"
 
 	"git.torproject.org/pluggable-transports/snowflake.git/v2/common/event"
+	"git.torproject.org/pluggable-transports/snowflake.git/v2/common/util"
 	"github.com/pion/ice/v2"
-	"github.com/pion/sdp/v3"
 	"github.com/pion/webrtc/v3"
 )
 
@@ -86,8 +86,7 @@ func (c *webRTCConn) SetWriteDeadline(t time.Time) error {
 func remoteIPFromSDP(str string) net.IP {
 	// Look for remote IP in "a=candidate" attribute fields
 	// https://tools.ietf.org/html/rfc5245#section-15.1
-	var desc sdp.SessionDescription
-	err := desc.Unmarshal([]byte(str))
+	desc, err := util.ParseSDP(str)
 	if err != nil {
 		log.Println("Error parsing SDP: ", err.Error())
 		return nil
